@@ -122,6 +122,9 @@ enum Param {
     /// a caller-supplied payload type whose write_xml fails after having written `written` elements:
     /// the call must fail, nothing may be sent, and nothing may be left behind for later messages
     FailingPayload { written: usize, via_load: bool },
+    /// the data of a get-config reply (an Opaque value read from the server) is sent back unchanged as the
+    /// payload of an edit-config: two requests; the server must read back the fragment it had sent
+    RoundTrip(String),
 }
 
 /// A configuration payload produced from a fallible source.
@@ -172,12 +175,14 @@ impl Param {
             Self::EditConfigCombo { .. } => "edit-config/combination",
             Self::FailingPayload { via_load: false, .. } => "edit-config/failing-payload",
             Self::FailingPayload { via_load: true, .. } => "load-configuration/failing-payload",
+            Self::RoundTrip(_) => "edit-config/config-read-from-get-config",
         }
     }
 }
 
 fn gen_param(ctx: &mut Ctx) -> Param {
-    match ctx.pick(23) {
+    match ctx.pick(24) {
+        23 => Param::RoundTrip(gen_fragment(ctx)),
         22 => Param::FailingPayload { written: ctx.pick(4), via_load: ctx.pick(2) == 1 },
         19 => Param::CommitCombo {
             timeout_s: match ctx.pick(4) {
@@ -231,7 +236,10 @@ fn gen_param(ctx: &mut Ctx) -> Param {
     }
 }
 
-struct Fake;
+struct Fake {
+    /// data of the replies to get-config requests, in order
+    data: std::collections::VecDeque<String>,
+}
 impl Server for Fake {
     fn on_message(&mut self, msg: &str) -> Vec<Vec<u8>> {
         // answer whatever can be answered: find a message-id leniently so that a malformed request does not stall the run
@@ -242,7 +250,11 @@ impl Server for Fake {
         if !msg.trim_start().starts_with("<rpc") {
             return vec![];
         }
-        let body = if msg.contains("<get") {
+        let round_trip;
+        let body = if msg.contains("<get-config") && !msg.contains("<filter") && !self.data.is_empty() {
+            round_trip = format!("<data>{}</data>", self.data.pop_front().unwrap_or_default());
+            &round_trip
+        } else if msg.contains("<get") {
             "<data/>"
         } else if msg.contains("<open-configuration") {
             ""
@@ -276,6 +288,10 @@ async fn issue(s: &mut Session<SimTransport>, p: &Param) -> Result<(), Error> {
         Param::LoadSet(v) => s.rpc::<LoadConfiguration<_>, _>(|b| b.source(Config::new(v, Text, Set)).finish()).await.map(drop),
         Param::LoadJson(v) => s.rpc::<LoadConfiguration<_>, _>(|b| b.source(Config::new(v, Json, Merge)).finish()).await.map(drop),
         Param::LoadXmlFragment(v) => s.rpc::<LoadConfiguration<_>, _>(|b| b.source(Config::new(Opaque::from(v), Xml, Merge)).finish()).await.map(drop),
+        Param::RoundTrip(_) => {
+            let data: Opaque = s.rpc::<GetConfig<Opaque>, _>(|b| b.source(Datastore::Running)?.finish()).await?.await?;
+            s.rpc::<EditConfig<Opaque>, _>(|b| b.target(Datastore::Candidate)?.config(data).finish()).await.map(drop)
+        }
         Param::FailingPayload { written, via_load: false } => s.rpc::<EditConfig<Flaky>, _>(|b| b.target(Datastore::Candidate)?.config(Flaky { written }).finish()).await.map(drop),
         Param::FailingPayload { written, via_load: true } => s.rpc::<LoadConfiguration<_>, _>(|b| b.source(Config::new(Flaky { written }, Xml, Merge)).finish()).await.map(drop),
         Param::CommitCombo { timeout_s, persist } => s
@@ -377,6 +393,7 @@ fn read_back(rpc: &Elem, p: &Param) -> Result<(), String> {
         Param::LoadJson(v) => eq(text_of(op.child("configuration-json"), "configuration-json")?, v),
         Param::LoadXmlFragment(v) => fragment_equal(op, v),
         Param::FailingPayload { .. } => Err("a request whose payload could not be serialised was sent".into()),
+        Param::RoundTrip(v) => fragment_equal(op.child("config").ok_or("<config> missing")?, v),
         Param::CommitCombo { timeout_s, persist } => {
             if op.child("confirmed").is_none() {
                 return Err("<confirmed> missing".into());
@@ -470,6 +487,13 @@ fn run(ctx: &mut Ctx) -> Verdict {
             ctx.count("probe.abandoned_request_above_64_KiB");
         }
         params.push(Param::CommitLog("after the abandoned call".into()));
+        // (the reply to the abandoned request belongs to nobody and fails whoever reads it: the round trip,
+        // the only parameter kind that awaits a reply, is left out of these runs)
+        for p in &mut params {
+            if matches!(p, Param::RoundTrip(_)) {
+                *p = Param::CommitLog("instead of a round trip".into());
+            }
+        }
         ctx.count("fault.rpc_call_dropped_while_its_send_is_pending");
     }
     for p in &params {
@@ -490,7 +514,7 @@ fn run(ctx: &mut Ctx) -> Verdict {
     // per request: (messages framed by the server during the call, bytes left unframed, send result)
     let obs: Arc<Mutex<Vec<(usize, usize, usize, Result<(), String>)>>> = Arc::default();
     let (obs2, params2) = (obs.clone(), params.clone());
-    let (q, exec) = drive(ctx, Box::new(Fake), Some(hello_with(&caps, "9")), SchedCfg::default(), move |net, _| {
+    let (q, exec) = drive(ctx, Box::new(Fake { data: params.iter().filter_map(|p| if let Param::RoundTrip(f) = p { Some(f.clone()) } else { None }).collect() }), Some(hello_with(&caps, "9")), SchedCfg::default(), move |net, _| {
         Box::pin(async move {
             let mut s = match Session::verif_new(SimTransport(net.clone())).await {
                 Ok(s) => s,
@@ -552,13 +576,20 @@ fn run(ctx: &mut Ctx) -> Verdict {
                 format!("an rpc() call dropped while its send was pending left {framed} complete message(s) and {unframed} byte(s) of an unterminated message at the server (the transport takes each send() as a whole): the next request will be glued to them"),
             );
         }
-        if *framed != 1 || *unframed != 0 {
+        let expect = if matches!(p, Param::RoundTrip(_)) { 2 } else { 1 };
+        if *framed != expect || *unframed != 0 {
             return Verdict::violation(
                 format!("not-exactly-one-message/{name}"),
                 format!("one rpc() produced {framed} delimiter-terminated message(s) and {unframed} trailing byte(s) at the server; parameter {p:?}"),
             );
         }
-        let msg = &received[idx];
+        if expect == 2 {
+            // the get-config request itself
+            if let Err(e) = crate::xml::parse(&received[idx]) {
+                return Verdict::violation(format!("malformed-request/{name}"), format!("{e}; message {}", received[idx].chars().take(400).collect::<String>()));
+            }
+        }
+        let msg = &received[idx + expect - 1];
         idx += framed;
         let doc = match crate::xml::parse(msg) {
             Ok(d) => d,
@@ -584,7 +615,7 @@ pub static C10: PropSpec = PropSpec {
     runs: |t| if t == Tier::Thorough { 10_000_000 } else { 200_000 },
     enumerated: |_| 0,
     run,
-    rule: "one run in 1500: 2-4 pipelined requests over the real TLS / SSH / local transport of which the first carries a 70-260 KiB subtree filter (larger than a pipe or socket buffer accepts at once); the scripted peer frames by the delimiter and must see every request exactly once, well-formed, the large value complete. Otherwise: 1-3 requests per session, each exercising one text-valued or fragment-valued parameter of one operation (19 parameter sites), or several parameters of one operation at once (commit: confirm-timeout x persist token; commit-configuration: check x confirmed[-timeout] x log x synchronize; edit-config: target x config|url x default-operation x error-option x test-option), every one of which must be read back; or a caller-supplied payload whose serialisation fails half-way (the call must fail, nothing may be sent and later messages must be unaffected); in one run of 12 one rpc() call - in half of these with a 70-200 KiB filter - is dropped by its caller at its first suspension point after bytes went out (flush pending) and another request follows: the server must be left with whole messages only; text values are concatenations of pieces from an adversarial alphabet (XML metacharacters, quotes, ']]>', the delimiter itself, entity look-alikes, comment/CDATA/PI openers, non-ASCII, empty); fragments come from a well-formed fragment generator (namespaces, attributes, nested elements, rewrite styles) and never contain the delimiter. The server frames by delimiter and parses with the harness's strict parser. Non-trivial = at least one request was sent; distinct = distinct event-log hash (includes the parameter values)",
+    rule: "one run in 1500: 2-4 pipelined requests over the real TLS / SSH / local transport of which the first carries a 70-260 KiB subtree filter (larger than a pipe or socket buffer accepts at once); the scripted peer frames by the delimiter and must see every request exactly once, well-formed, the large value complete. Otherwise: 1-3 requests per session, each exercising one text-valued or fragment-valued parameter of one operation (19 parameter sites), or several parameters of one operation at once (commit: confirm-timeout x persist token; commit-configuration: check x confirmed[-timeout] x log x synchronize; edit-config: target x config|url x default-operation x error-option x test-option), every one of which must be read back; or the data of a get-config reply (a generated fragment with entity references) sent back unchanged as an edit-config payload, which the server must read back as the fragment it had sent; or a caller-supplied payload whose serialisation fails half-way (the call must fail, nothing may be sent and later messages must be unaffected); in one run of 12 one rpc() call - in half of these with a 70-200 KiB filter - is dropped by its caller at its first suspension point after bytes went out (flush pending) and another request follows: the server must be left with whole messages only; text values are concatenations of pieces from an adversarial alphabet (XML metacharacters, quotes, ']]>', the delimiter itself, entity look-alikes, comment/CDATA/PI openers, non-ASCII, empty); fragments come from a well-formed fragment generator (namespaces, attributes, nested elements, rewrite styles) and never contain the delimiter. The server frames by delimiter and parses with the harness's strict parser. Non-trivial = at least one request was sent; distinct = distinct event-log hash (includes the parameter values)",
     components: &[("netconf session + request serialisers (message/**)", "real"), ("transport", "stub: in-memory; one run in 1500: the real TLS / SSH / local transports (send side under back-pressure) against the scripted R-sim peer"), ("NETCONF server", "model: frames by ]]>]]>, strict XML parser, reads values back")],
     assumptions: &[
         "decided by generated parameter values; schedule fixed",
